@@ -80,6 +80,34 @@ def candidates(c):
                         return True
         return False
 
+    # three targets: two exclusive children of a compound state together with that state, in every order
+    # (a descendant listed before its own ancestor, the conflicting sibling after it, ...)
+    def three(perm, as_initial):
+        def fn(ch):
+            for n in ch.states:
+                kids = ch.proper_children(n)
+                if n.kind == "state" and len(kids) >= 2:
+                    trio = [kids[0], n, kids[1]]
+                    trio = [trio[i] for i in perm]
+                    if as_initial:
+                        host = n.parent
+                        if host is None or host.kind != "state" or any(k.kind == "initial" for k in host.children):
+                            continue
+                        host.initial = trio
+                        return True
+                    for t in ch.trans:
+                        if t.kind == "normal":
+                            t.tgt = trio
+                            return True
+            return False
+        return fn
+    import itertools
+    threes = []
+    for perm in itertools.permutations((0, 1, 2)):
+        tag = "".join("kpq"[i] for i in perm)        # k = first child, p = the compound state, q = second child
+        threes.append(("non-orthogonal-3-" + tag, three(perm, False)))
+        threes.append(("initial-non-orthogonal-3-" + tag, three(perm, True)))
+
     def e_duplicate_id(ch):
         named = [n for n in ch.states if n.kind in ("state", "parallel", "final")]
         if len(named) >= 2:
@@ -115,7 +143,7 @@ def candidates(c):
             ("initial-outside", e_initial_outside), ("history-no-default", e_history_no_default),
             ("history-two-defaults", e_history_two_defaults), ("history-with-event", e_history_with_event),
             ("non-orthogonal-targets", e_non_orthogonal), ("duplicate-id", e_duplicate_id),
-            ("missing-id", e_missing_id), ("initial-with-event", e_initial_with_event)]
+            ("missing-id", e_missing_id), ("initial-with-event", e_initial_with_event)] + threes
 
 
 def _is_desc(x, anc):
